@@ -225,6 +225,11 @@ def gen_C06(g, tier):
             if n <= 40:
                 for m in (n, n + 3, max(1, n - 1), 1, 2 * n + 1):
                     cs.append(Case('o.c06.worker %d %d %d %s %d %s' % (n, m, g.randint(0, 3), dhex(cv), k, hexes(xs)), 'orc', 'worker-from-object-with-other-size', check=small_hex_check(1e-12)))
+    # user classes derived from every concrete mode class, reporting an arbitrary covariance sequence
+    for kind in range(6):
+        for _ in range(2 if tier == 'quick' else 40):
+            n = g.randint(1, 9); k = g.randint(1, 2 * n + 2); cv = g.r.uniform(0.5, 3); xs = [cv] + [g.r.uniform(-1, 1) * cv for _ in range(k - 1)]
+            cs.append(Case('o.c06.derived %d %d %d %s %d %s' % (kind, n, g.randint(0, 2), dhex(cv), k, hexes(xs)), 'orc', 'worker-on-user-class-derived-from-library-mode', check=small_hex_check(1e-12)))
     # one sample object over one rectangular-modulated mode, re-queried after changes of sample size and of the mode's statistics
     for _ in range(12 if tier == 'quick' else 300):
         w = g.randint(2, 9); n0 = g.randint(1, 10); steps = g.randint(2, 6)
